@@ -12,6 +12,9 @@
 (*             the real Network holds afterwards                                                    *)
 (*   acq     : the receiving node was made acquainted with a key at an address (history)            *)
 (*   restart : the driver built a new receiving node (acquaintances made again)                     *)
+(*   deliver.touched : the keys whose records anywhere in the overlay (routing nodes, stored peers, *)
+(*             request caches, metrics of Peer objects) differ before / after the delivery          *)
+(*   probe   : what the serialized keys resolve to in the receiving process (variable kres)         *)
 EXTENDS Auth, Sequences, Json, IOUtils, TLCExt
 
 Traces == JsonDeserialize(IOEnv.TRACE_FILE)
@@ -42,9 +45,12 @@ TraceNext ==
           /\ Mutate(e.name, IF e.from = "base" THEN base ELSE cur, e.d)
           /\ UNCHANGED base
        \/ /\ e.k = "deliver"
-          /\ IF e.entered THEN Run(e.o, e.peer, Rng(e.newv), e.src, BookIn(e))
-                          ELSE Drop(e.o, e.src) /\ e.newv = <<>> /\ BookIn(e) = book[e.o]
+          /\ IF e.entered THEN Run(e.o, e.peer, Rng(e.newv), e.src, BookIn(e), Rng(e.touched))
+                          ELSE Drop(e.o, e.src) /\ e.newv = <<>> /\ BookIn(e) = book[e.o] /\ e.touched = <<>>
           /\ UNCHANGED base
+       \/ /\ e.k = "probe"          \* the driver asked the real ECCrypto.key_from_public_bin what these keys resolve to
+          /\ \A q \in Rng(e.kres) : q[1] \in Keys /\ kres[q[1]] = q[2]
+          /\ UNCHANGED <<vars, base>>
        \/ /\ e.k = "acq"
           /\ Acquaint(e.o, e.key, e.src)
           /\ UNCHANGED base
